@@ -67,7 +67,7 @@ def check(ctx: Ctx):
     sub_ro = Ctx(ctx.model, ctx.prop, ctx.tier)
     col.check_remove_overlapping(sub_ro)
     for f in sub_ro.findings:
-        if f.rule in ("PAIR", "EFFECT") or (f.rule == "GUARDSHAPE" and (f.site.endswith(":tie-break") or f.site.endswith(":closeness"))):
+        if f.rule in ("PAIR", "EFFECT", "METRIC") or (f.rule == "GUARDSHAPE" and (f.site.endswith(":tie-break") or f.site.endswith(":closeness"))):
             ctx.findings.append(f)
     ctx.functions |= sub_ro.functions
     col.check_instance_containers(ctx, ("EmulsionTimeCourse", "DropletTrack"), rule="OWN")
